@@ -1,0 +1,134 @@
+//! Read-only observation hook for external verification harnesses.
+//!
+//! Compiled only with the cargo feature `yuja_qmluic_verif`. An observer installed on the
+//! current thread is handed the finished IR of every binding and callback of a document at
+//! the end of [`build()`](super::build), i.e. after the constant pass has settled which
+//! bindings were evaluated. Nothing here mutates the translation state.
+
+use super::objcode::{ObjectCodeMap, PropertyCode, PropertyCodeKind};
+use crate::objtree::ObjectTree;
+use crate::tir::CodeBody;
+use crate::typemap::{Method, Property, TypeSpace as _};
+use std::cell::RefCell;
+use std::collections::HashMap;
+
+/// Where the observed code comes from.
+#[derive(Clone, Copy, Debug, Eq, PartialEq)]
+pub enum ObservedCodeKind {
+    /// Binding to an ordinary (possibly grouped) property.
+    Property,
+    /// Binding to an attached property; the first path element is the attaching class.
+    AttachedProperty,
+    /// Signal callback.
+    Callback,
+}
+
+/// Finished code of one binding or callback.
+pub struct ObservedCode<'c, 'a> {
+    pub object_name: &'c str,
+    pub object_class: &'c str,
+    pub flat_index: usize,
+    pub kind: ObservedCodeKind,
+    /// Property path (`["font", "bold"]`), or the signal name for callbacks.
+    pub path: &'c [String],
+    pub code: &'c CodeBody<'a>,
+    pub is_evaluated_constant: bool,
+    pub property: Option<&'c Property<'a>>,
+    pub signal: Option<&'c Method<'a>>,
+}
+
+type Observer = Box<dyn for<'c, 'a> FnMut(&ObservedCode<'c, 'a>)>;
+
+thread_local! {
+    static OBSERVER: RefCell<Option<Observer>> = const { RefCell::new(None) };
+}
+
+/// Installs (or removes) the observer of the current thread, returning the previous one.
+pub fn set_observer(observer: Option<Observer>) -> Option<Observer> {
+    OBSERVER.with(|o| std::mem::replace(&mut *o.borrow_mut(), observer))
+}
+
+pub(super) fn observe(object_tree: &ObjectTree, object_code_maps: &[ObjectCodeMap]) {
+    OBSERVER.with(|o| {
+        let mut o = o.borrow_mut();
+        let f = match o.as_mut() {
+            Some(f) => f,
+            None => return,
+        };
+        for (obj_node, code_map) in object_tree.flat_iter().zip(object_code_maps) {
+            let class_name = obj_node.class().qualified_cxx_name().into_owned();
+            let mut emit = |kind, path: &[String], code, constant, property, signal| {
+                f(&ObservedCode {
+                    object_name: obj_node.name(),
+                    object_class: &class_name,
+                    flat_index: obj_node.flat_index(),
+                    kind,
+                    path,
+                    code,
+                    is_evaluated_constant: constant,
+                    property,
+                    signal,
+                })
+            };
+            let mut path = Vec::new();
+            walk_properties(
+                ObservedCodeKind::Property,
+                code_map.properties(),
+                &mut path,
+                &mut emit,
+            );
+            for (cls, (_, props)) in code_map.all_attached_properties() {
+                let mut path = vec![cls.qualified_cxx_name().into_owned()];
+                walk_properties(ObservedCodeKind::AttachedProperty, props, &mut path, &mut emit);
+            }
+            for c in code_map.callbacks() {
+                let path = [c.desc().name().to_owned()];
+                emit(
+                    ObservedCodeKind::Callback,
+                    &path,
+                    c.code(),
+                    false,
+                    None,
+                    Some(c.desc()),
+                );
+            }
+        }
+    })
+}
+
+fn walk_properties<'c, 'a, F>(
+    kind: ObservedCodeKind,
+    map: &'c HashMap<&str, PropertyCode<'a, '_, '_>>,
+    path: &mut Vec<String>,
+    emit: &mut F,
+) where
+    F: FnMut(
+        ObservedCodeKind,
+        &[String],
+        &'c CodeBody<'a>,
+        bool,
+        Option<&'c Property<'a>>,
+        Option<&'c Method<'a>>,
+    ),
+{
+    let mut names: Vec<_> = map.keys().copied().collect();
+    names.sort_unstable();
+    for name in names {
+        let p = &map[name];
+        path.push(name.to_owned());
+        match p.kind() {
+            PropertyCodeKind::Expr(_, code) => emit(
+                kind,
+                path,
+                code,
+                p.is_evaluated_constant(),
+                Some(p.desc()),
+                None,
+            ),
+            PropertyCodeKind::GadgetMap(_, m) | PropertyCodeKind::ObjectMap(_, m) => {
+                walk_properties(kind, m, path, emit)
+            }
+        }
+        path.pop();
+    }
+}
